@@ -51,6 +51,7 @@ Msgs == {"M", "N"}
 Arrivals ==
   [t : {"piece"}, m : Msgs, k : 1..3] \cup [t : {"wrongtotal"}, m : Msgs, k : 1..3]
   \cup [t : {"zero", "nzero", "beyond", "foreign", "stranger", "garbage", "whole"}, m : {"M"}, k : {1}]
+  \cup [t : {"otherformat"}, m : {"M"}, k : {1, 3}]
 
 VARIABLES k, n,      \* reassembly context: index and total (0, 0 = empty)
           buf,       \* which pieces the buffer holds: sequence of <<message, index>>
@@ -79,7 +80,9 @@ Arrive(a) ==
   /\ count' = count + 1
   /\ path' = IF Export THEN Append(path, a) ELSE path
   /\ bound0' = bound0
-  /\ CASE a.t \in {"foreign", "garbage"} -> UNCHANGED <<k, n, buf, processed, bound>>
+  /\ CASE a.t \in {"foreign", "garbage", "otherformat"} -> UNCHANGED <<k, n, buf, processed, bound>>
+       \* "otherformat": a well-formed fragment (first / completing piece) in the header format of the other
+       \* protocol version is not a fragment of this conversation
        \* a fragment of the peer's, addressed to another of our instances ("foreign"), is nothing to us:
        \* it does not even tell us who our peer is
        [] a.t = "whole" -> /\ k' = 0 /\ n' = 0 /\ buf' = <<>> /\ bound' = bound
